@@ -36,7 +36,7 @@ pub fn collect(tier: &str, caps: &Caps, rep: &Report) -> Vec<In> {
         let st = explore(|ctx| crate::faults::gen(ctx, k), bound, caps, |ch, c| push(&format!("faults({})", k), ch, c.tags.clone(), c.item.render()));
         rep.add_stats(&format!("faults({})", k), &bound.map(|b| format!("dev({})", b)).unwrap_or("full".into()), &st);
     }
-    corpus::for_each(tier, caps, rep, |space, ch, c| push(&format!("corpus/{}", space), ch, c.tags.clone(), c.item.render()));
+    corpus::for_each(if tier == "quick" { "quick" } else { "mid" }, caps, rep, |space, ch, c| push(&format!("corpus/{}", space), ch, c.tags.clone(), c.item.render()));
     {
         use super::Space;
         let sp = super::c16::Combo { n: 2, curated: true };
